@@ -994,6 +994,11 @@ func (f *frame) loopVarValue(li *loopInfo, name string, phiVals map[*ssa.Phi]*Va
 		}
 		return nil, fmt.Errorf("loop %d of %s: no phi %q at the head of loop %d", li.Ord, f.fn.Name(), m[1], k)
 	}
+	// <name>_cur: the phi <name> at this loop head when a parameter of the same name exists (the bare
+	// name then denotes the parameter, i.e. the ENTRY value)
+	if strings.HasSuffix(name, "_cur") {
+		name = strings.TrimSuffix(name, "_cur")
+	}
 	for _, ins := range li.Header.Instrs {
 		if phi, ok := ins.(*ssa.Phi); ok && phi.Comment == name {
 			if v, ok := phiVals[phi]; ok {
